@@ -470,6 +470,7 @@ hist! {
             assert!(i4 != i1 && i4 != i2 && i4 != i3, "C05.HIST-ID-FRESH: ids are not reused after a removal");
             deliver(a);
             assert!(log_is(&[PREV3, 2, 3, 4]), "C02.HIST-ORDER: a later registration runs last");
+            assert!(lm::N_SIGACTION == 2, "C05.HIST-INSTALL-ONCE: the handler is installed once (query + install) for the whole history");
         }
     }
 }
